@@ -336,9 +336,15 @@ def _cli_dry_run(spec: Dict[str, Any], d: str) -> Dict[str, Any]:
 
     from ..lib import clidrv
 
-    cfg = clidrv.config_mapping([{"p": "VMarkerSource", "params": {"marker": "marker.txt"}}], run_space=to_block(spec))
+    block = to_block(spec)
+    argv = ["run", "p.yaml", "-q", "--run-space-dry-run"]
+    if len(_freeze(spec)) % 2 == 0:
+        # the cap is given on the command line instead of in the file (same meaning, also for a cap of 0)
+        block["max_runs"] = 1000
+        argv += ["--run-space-max-runs", str(spec["max_runs"])]
+    cfg = clidrv.config_mapping([{"p": "VMarkerSource", "params": {"marker": "marker.txt"}}], run_space=block)
     clidrv.write_yaml(os.path.join(d, "p.yaml"), cfg)
-    res = clidrv.run_inprocess(["run", "p.yaml", "-q", "--run-space-dry-run"], d)
+    res = clidrv.run_inprocess(argv, d)
     m = re.search(r"expanded_runs:\s*(\d+)", res["stdout"])
     preview = re.findall(r"^\s+\d+: (\{.*)$", res["stdout"], re.M)
     return {"code": res["code"], "expanded_runs": int(m.group(1)) if m else None, "preview": preview,
@@ -378,7 +384,7 @@ def check_case(spec: Dict[str, Any], col: Collector, workroot: str = ".") -> Non
                     os.remove(pth)
         if decoys:
             col.labels["decoy_source_in_process_cwd"] += 1
-        dry = _cli_dry_run(spec, d) if spec.get("entry") == "yaml" and (len(_freeze(spec)) % 7 == 0) else None
+        dry = _cli_dry_run(spec, d) if spec.get("entry") == "yaml" and (len(_freeze(spec)) % 3 == 0) else None
     finally:
         shutil.rmtree(d, ignore_errors=True)
     labs = ["blocks:%d" % len(spec["blocks"]), "combine:" + spec["combine"], "entry:" + spec.get("entry", "api")]
@@ -461,8 +467,18 @@ def promptness(col: Collector, shapes: List[Tuple[int, int, int, str]]) -> None:
             block_mode = "by_position" if layout.startswith("by_position") else "combinatorial"
             inline = {"inline": [0]} if layout.endswith("+context") and block_mode == "combinatorial" else {}
             blocks = [RunBlock(mode=block_mode, context=inline, source=RunSource(format="json", path=src_path, mode="combinatorial"))]
-        spec = RunSpaceV1Config(combine="combinatorial", max_runs=cap, blocks=blocks)
         product = nvals ** nkeys
+        for combine in (("combinatorial", "by_position") if len(blocks) == 1 else ("combinatorial",)):
+            _promptness_one(col, RunSpaceV1Config(combine=combine, max_runs=cap, blocks=blocks), ctx, product,
+                            {"promptness": {"keys": nkeys, "values": nvals, "max_runs": cap, "layout": layout, "combine": combine}}, layout, combine)
+    shutil.rmtree(tdir, ignore_errors=True)
+
+
+def _promptness_one(col: Collector, spec, ctx, product: int, case, layout: str, combine: str) -> None:
+    from semantiva.exceptions.pipeline_exceptions import RunSpaceMaxRunsExceededError
+    from semantiva.execution.run_space import expand_run_space
+
+    if True:
         tracemalloc.start()
         keep = [dict(zip(ctx, combo)) for combo in itertools.product(*ctx.values())]
         _cur, cost = tracemalloc.get_traced_memory()
@@ -478,14 +494,12 @@ def promptness(col: Collector, shapes: List[Tuple[int, int, int, str]]) -> None:
             outcome = type(exc).__name__
         _cur, peak = tracemalloc.get_traced_memory()
         tracemalloc.stop()
-        case = {"promptness": {"keys": nkeys, "values": nvals, "max_runs": cap, "layout": layout}}
-        col.count(case, ["promptness", "layout:" + layout], True)
+        col.count(case, ["promptness", "layout:" + layout, "promptness_combine:" + combine], True)
         if outcome != "maxruns":
-            col.add("cap_exceeded_not_rejected_with_max_runs_error", {"layout": layout}, case, outcome, "maxruns")
+            col.add("cap_exceeded_not_rejected_with_max_runs_error", {"layout": layout, "combine": combine}, case, outcome, "maxruns")
         if peak > 0.05 * cost or peak > 600_000:
-            col.add("expansion_materialised_before_cap_check", {"layout": layout}, case,
+            col.add("expansion_materialised_before_cap_check", {"layout": layout, "combine": combine}, case,
                     {"peak_bytes": peak, "materialisation_cost_bytes": cost, "product": product}, "peak < 5% of cost and < 600 kB")
-    shutil.rmtree(tdir, ignore_errors=True)
 
 
 def plan(tier: str, seed: int, scale: float = 1.0) -> List[Dict[str, Any]]:
